@@ -362,16 +362,28 @@ func (c *CLI2) Run(args ...string) (res CmdResult) {
 	root.SetOut(&stdout)
 	root.SetErr(&stderr)
 	cliMu.Unlock()
-	panicked, msg := Protect(func() {
-		err := root.ExecuteContext(ctx)
-		switch err {
-		case nil:
-			err = ctx.Err()
-		case ErrOK:
-			err = nil
-		}
-		res.Err = err
-	})
+	// The harness runs inside init(), i.e. on the main goroutine while it is still locked to its OS
+	// thread; `copy` creates an iter.Pull2 coroutine and resumes it from a worker goroutine, which
+	// the runtime only allows when creator and resumer have the same thread-lock state (as in a
+	// normal restic process, where main.main is not locked). Hence: run the command on a fresh
+	// goroutine.
+	var panicked bool
+	var msg string
+	done := make(chan struct{})
+	go func() {
+		defer close(done)
+		panicked, msg = Protect(func() {
+			err := root.ExecuteContext(ctx)
+			switch err {
+			case nil:
+				err = ctx.Err()
+			case ErrOK:
+				err = nil
+			}
+			res.Err = err
+		})
+	}()
+	<-done
 	cancel()
 	cancelTerm()
 	os.Unsetenv("RESTIC_FROM_PASSWORD")
